@@ -142,6 +142,8 @@ class C18(Prop):
                 c["valform"] = rng.choice(["array", "array", "list", "axis"])
             if is_sorted(arr["axes"][d]) and rng.random() < 0.5:
                 c["issorted"] = True            # only where the labels are stored in increasing order: same result
+            elif rng.random() < 0.25:
+                c["issorted_false"] = True      # issorted=False said explicitly: the library sorts, as for None
             if op in ("like", "dataset_like"):
                 c["valform"] = "array"          # the coordinates come with the template
             if op == "like":
@@ -281,6 +283,8 @@ class C18(Prop):
         kw = dict(kw0)
         if c.get("issorted"):
             kw["issorted"] = True
+        elif c.get("issorted_false"):
+            kw["issorted"] = False
         axkw = {} if c["axis"][0] == "default" else {"axis": c["axis"][1]}
 
         def template(axes=None):
@@ -522,7 +526,7 @@ class C18(Prop):
         k = c["axis"]
         return {"outcome": "err:" + io["err"] if "err" in io else "ok", "op": c["op"], "rank": len(c["array"]["axes"]),
                 "order": ax.get("_order"), "nlab": len(ax["labels"]), "fills": fk, "vkind": c["array"]["vkind"],
-                "issorted": bool(c.get("issorted")), "valform": c.get("valform", "array"), "newkind": c.get("newkind", "f"),
+                "issorted": "True" if c.get("issorted") else "False" if c.get("issorted_false") else "None", "valform": c.get("valform", "array"), "newkind": c.get("newkind", "f"),
                 "nnew": min(len(c["labels"]), 3), "tmpl": c.get("tmpl"), "tmpl_extra": c.get("tmpl_extra"), "tmpl_rev": bool(c.get("tmpl_rev")),
                 "tmpl_str": bool(c.get("tmpl_str")), "ds_axis": c.get("ds_axis"), "inf": len(c["array"].get("inf_cells", [])),
                 "axis_form": k[0] if k[0] != "pos" else ("pos" if k[1] >= 0 else "negpos"),
